@@ -670,6 +670,19 @@ def normalise_consts(data, kconsts, log=None):
     for c, d in data.items():
         walk(d["bodies"])
 
+    # the literal match tables (HIR patterns / arm values) name constants as {"path": key}
+    def walk_pat(x):
+        if isinstance(x, list):
+            return [walk_pat(v) for v in x]
+        if isinstance(x, dict):
+            if set(x) == {"path"} and x["path"] in plan:
+                pl = plan[x["path"]]
+                return {"path": pl[1]} if pl[0] == "alias" else {"int": pl[2]}
+            return {k: walk_pat(v) for k, v in x.items()}
+        return x
+    for c, d in data.items():
+        d["matches"] = walk_pat(d.get("matches", []))
+
 
 def _split_sig(sig):
     """('(A, B<C, D>) -> R') -> (['A', 'B<C, D>'], 'R')"""
